@@ -20,6 +20,7 @@ import (
 	"github.com/invopop/gobl/verifharness/internal/jsontree"
 	"github.com/invopop/gobl/verifharness/internal/pubschema"
 	"github.com/invopop/gobl/verifharness/internal/vh"
+	"golang.org/x/text/unicode/norm"
 	"pgregory.net/rapid"
 )
 
@@ -205,6 +206,14 @@ func alter(v any) []string {
 			out = append(out, jsonStr(t+"x"))
 		default:
 			out = append(out, jsonStr(t+"x"), jsonStr(strings.ToUpper(t)+"-"))
+		}
+		// the same text spelled with other code points (composed / decomposed
+		// accents) is other content: a text is its code points
+		if d := norm.NFD.String(t); d != t {
+			out = append(out, jsonStr(d))
+		}
+		if c := norm.NFC.String(t); c != t {
+			out = append(out, jsonStr(c))
 		}
 		return out
 	case json.Number:
@@ -807,7 +816,7 @@ func genEdit(t *rapid.T) Edit {
 
 func init() {
 	vh.Describe(
-		"Bases: every example document, enveloped, calculated and valid (quick: a spread of 1 in 7 plus all non-invoice documents for the exhaustive sweep; thorough: all). Exhaustive single edits of the serialised doc: every leaf altered to another value of its type (amounts: digit and precision; percentages; dates; date-times: second, zone designator, fraction; country codes: other codes including the alternative codes of one regime; strings; booleans) - an alteration that is read back as the same content is a blind spot -, every member and element removed, every member that other examples carry at the same position, or that the published schema declares there (a small instance built from the schema: lists with one element, maps with one entry - also one whose value is the empty text, and such an entry added to every map that is present -, objects with their required members), added, arrays swapped / shortened / duplicated; plus rapid sampling of edits over all bases, and random content-preserving re-encodings (member order, whitespace, \\u escapes and the two-character escapes of JSON, the solidus among them; for a third the header notes hold characters outside the basic plane, escaped as surrogate pairs), which must validate in the library and through cli.Validate, the entry point of the command line, bulk and HTTP. Oracle: J(x) = JSON of marshal(parse(x).doc), the same whether x is read into a fresh envelope or into one that held the original before; J equal => validates with the same digest; J different => Digest() differs from head.dig, Validate() fails (with the digest key when everything else validates), and after Calculate() the digest equals the original iff J does. Non-trivial: the edit changes J (it is not normalised away by the parser).",
+		"Bases: every example document, enveloped, calculated and valid (quick: a spread of 1 in 7 plus all non-invoice documents for the exhaustive sweep; thorough: all). Exhaustive single edits of the serialised doc: every leaf altered to another value of its type (amounts: digit and precision; percentages; dates; date-times: second, zone designator, fraction; country codes: other codes including the alternative codes of one regime; strings, also respelled with decomposed / composed accents; booleans) - an alteration that is read back as the same content is a blind spot -, every member and element removed, every member that other examples carry at the same position, or that the published schema declares there (a small instance built from the schema: lists with one element, maps with one entry - also one whose value is the empty text, and such an entry added to every map that is present -, objects with their required members), added, arrays swapped / shortened / duplicated; plus rapid sampling of edits over all bases, and random content-preserving re-encodings (member order, whitespace, \\u escapes and the two-character escapes of JSON, the solidus among them; for a third the header notes hold characters outside the basic plane, escaped as surrogate pairs), which must validate in the library and through cli.Validate, the entry point of the command line, bulk and HTTP. Oracle: J(x) = JSON of marshal(parse(x).doc), the same whether x is read into a fresh envelope or into one that held the original before; J equal => validates with the same digest; J different => Digest() differs from head.dig, Validate() fails (with the digest key when everything else validates), and after Calculate() the digest equals the original iff J does. Non-trivial: the edit changes J (it is not normalised away by the parser).",
 		"members the parser does not know are not part of the logical content (they vanish on parse); additions therefore use members other examples carry at the same position or the published schemas declare there",
 	)
 	vh.Enum("edits", enumEdits, judgeEdit)
